@@ -3,55 +3,113 @@ import Mieru.Model.Server
 namespace Mieru.Driver.Server
 open Mieru.Driver Mieru.Server
 
-def parseKind (t : String) : Option Kind :=
-  match t.splitOn "-" with
-  | ["open", n] => n.toNat?.map Kind.openReq
-  | ["sess", n] => n.toNat?.map Kind.otherSession
-  | ["data", n] => n.toNat?.map Kind.dataAck
-  | ["unknown"] => some Kind.unknown
-  | _ => none
-
 def parseOptUser (t : String) : Option (Option Nat) :=
   if t == "none" then some none else t.toNat?.map some
 
 def parseBool (t : String) : Option Bool :=
   if t == "1" then some true else if t == "0" then some false else none
 
-/-- TCP unit token: `<enough>/<opens>/<dup>/<metaOk>/<bodyOk>/<kind>` e.g. `1/none/0/1/1/unknown`,
-    `1/0/0/1/1/open-7` -/
+/-- TCP unit token (13 fields):
+    `<avail>/<eof>/<opens>/<dup>/<proto>/<sid>/<payloadLen>/<prefixLen>/<suffixLen>/<tsOk>/<leOk>/<bodyAvail>/<payloadOpens>`
+    e.g. a genuine first segment `72/0/0/0/2/7/100/0/20/1/1/136/1`, random bytes `72/0/none/0/0/0/0/0/0/1/1/0/1` -/
 def parseTcp (t : String) : Option TcpUnit :=
   match t.splitOn "/" with
-  | [e, o, d, m, b, k] =>
-    match parseBool e, parseOptUser o, parseBool d, parseBool m, parseBool b, parseKind k with
-    | some e, some o, some d, some m, some b, some k => some ⟨e, o, d, m, b, k⟩
-    | _, _, _, _, _, _ => none
-  | _ => none
-
-/-- UDP unit token: `<long>/<existing>/<discover>/<dupOther>/<metaOk>/<bodyOk>/<kind>` -/
-def parseUdp (t : String) : Option UdpUnit :=
-  match t.splitOn "/" with
-  | [l, e, o, d, m, b, k] =>
-    match parseBool l, parseOptUser e, parseOptUser o, parseBool d, parseBool m, parseBool b, parseKind k with
-    | some l, some e, some o, some d, some m, some b, some k => some ⟨l, e, o, d, m, b, k⟩
+  | [a, e, o, d, p, s, pl, pre, suf, ts, le, b, po] =>
+    match a.toNat?, parseBool e, parseOptUser o, parseBool d, p.toNat?, s.toNat?, pl.toNat? with
+    | some a, some e, some o, some d, some p, some s, some pl =>
+      match pre.toNat?, suf.toNat?, parseBool ts, parseBool le, b.toNat?, parseBool po with
+      | some pre, some suf, some ts, some le, some b, some po =>
+        some { avail := a, eof := e, opens := o, dup := d,
+               md := { proto := p, sid := s, payloadLen := pl, prefixLen := pre, suffixLen := suf, tsOk := ts, leOk := le },
+               bodyAvail := b, payloadOpens := po }
+      | _, _, _, _, _, _ => none
     | _, _, _, _, _, _, _ => none
   | _ => none
 
+/-- UDP unit token (12 fields):
+    `<len>/<existing>/<discover>/<dupOther>/<proto>/<sid>/<payloadLen>/<prefixLen>/<suffixLen>/<tsOk>/<leOk>/<payloadOpens>` -/
+def parseUdp (t : String) : Option UdpUnit :=
+  match t.splitOn "/" with
+  | [l, e, o, d, p, s, pl, pre, suf, ts, le, po] =>
+    match l.toNat?, parseOptUser e, parseOptUser o, parseBool d, p.toNat?, s.toNat?, pl.toNat? with
+    | some l, some e, some o, some d, some p, some s, some pl =>
+      match pre.toNat?, suf.toNat?, parseBool ts, parseBool le, parseBool po with
+      | some pre, some suf, some ts, some le, some po =>
+        some { len := l, existing := e, discover := o, dupOther := d,
+               md := { proto := p, sid := s, payloadLen := pl, prefixLen := pre, suffixLen := suf, tsOk := ts, leOk := le },
+               payloadOpens := po }
+      | _, _, _, _, _ => none
+    | _, _, _, _, _, _, _ => none
+  | _ => none
+
+def b01 (b : Bool) : Nat := if b then 1 else 0
+
+def isCloseReq : Out → Bool
+  | .closeReq _ => true
+  | _ => false
+
+def showTcp (s : TcpSt) : String :=
+  s!"out={s.out.length} closeReq={(s.out.filter isCloseReq).length} accepted={s.accepted.length} sessions={s.sessions.length} closed={b01 s.closed} drain={b01 s.drain} recv={match s.recv with | none => "none" | some u => toString u}"
+
+def showUdp (s : UdpSt) : String :=
+  s!"out={s.out.length} closeReq={(s.out.filter isCloseReq).length} accepted={s.accepted.length} sessions={s.sessions.length}"
+
 /-- ops:
-  srv-tcp <unit>…  → ok out=<n> accepted=<n> sessions=<n> closed=<0|1>
-  srv-udp <unit>…  → ok out=<n> accepted=<n> sessions=<n>
+  srv-tcp <unit>…            → ok out=<n> closeReq=<n> accepted=<n> sessions=<n> closed=<0|1> drain=<0|1> recv=<none|u>   (tcpRun from the fresh state)
+  srv-tcp-valid <unit>       → ok <0|1>                                                                      (TcpUnit.validOpen)
+  srv-udp <unit>…            → ok out=<n> closeReq=<n> accepted=<n> sessions=<n>                              (udpRun from the empty state)
+  srv-udp-from <sid,…|-> <unit>… → the same from a state in which the given sessions already exist (`sessions` = new ones)
+  srv-udp-eff <unit>         → ok <0|1>                                                                      (UdpUnit.effective)
+  srv-udp-body <rem> <proto> <payloadLen> <prefixLen> <suffixLen> <payloadOpens> → ok <0|1>                  (udpBodyOk)
+  srv-classify <proto> <sid> → ok <isSession> <isData> <isAck> <isLowEntropy> <clientToServer> <validNewSession>
 -/
 def handler : IO Handler := pure fun op args => pure <|
   match op with
   | "srv-tcp" =>
     match args.mapM parseTcp with
-    | some us => let s := tcpRun {} us
-                 some s!"ok out={s.out.length} accepted={s.accepted.length} sessions={s.sessions.length} closed={if s.closed then 1 else 0}"
+    | some us => some s!"ok {showTcp (tcpRun {} us)}"
     | none => some "bad-op"
+  | "srv-tcp-valid" =>
+    match args with
+    | [t] => match parseTcp t with
+      | some u => some s!"ok {b01 u.validOpen}"
+      | none => some "bad-op"
+    | _ => some "bad-op"
   | "srv-udp" =>
     match args.mapM parseUdp with
-    | some us => let s := udpRun {} us
-                 some s!"ok out={s.out.length} accepted={s.accepted.length} sessions={s.sessions.length}"
+    | some us => some s!"ok {showUdp (udpRun {} us)}"
     | none => some "bad-op"
+  | "srv-udp-from" =>
+    match args with
+    | sids :: rest =>
+      let ids := if sids == "-" then some [] else (sids.splitOn ",").mapM String.toNat?
+      match ids, rest.mapM parseUdp with
+      | some ids, some us =>
+        let s := udpRun { sessions := ids } us
+        some s!"ok {showUdp { s with sessions := s.sessions.take (s.sessions.length - ids.length) }}"
+      | _, _ => some "bad-op"
+    | [] => some "bad-op"
+  | "srv-udp-eff" =>
+    match args with
+    | [t] => match parseUdp t with
+      | some u => some s!"ok {b01 u.effective}"
+      | none => some "bad-op"
+    | _ => some "bad-op"
+  | "srv-udp-body" =>
+    match args with
+    | [r, p, pl, pre, suf, po] =>
+      match r.toNat?, p.toNat?, pl.toNat?, pre.toNat?, suf.toNat?, parseBool po with
+      | some r, some p, some pl, some pre, some suf, some po =>
+        some s!"ok {b01 (udpBodyOk r { proto := p, sid := 1, payloadLen := pl, prefixLen := pre, suffixLen := suf } po)}"
+      | _, _, _, _, _, _ => some "bad-op"
+    | _ => some "bad-op"
+  | "srv-classify" =>
+    match args with
+    | [p, s] =>
+      match p.toNat?, s.toNat? with
+      | some p, some s => some s!"ok {b01 (isSession p)} {b01 (isData p)} {b01 (isAck p)} {b01 (isLowEntropy p)} {b01 (clientToServer p)} {b01 (validNewSession p s)}"
+      | _, _ => some "bad-op"
+    | _ => some "bad-op"
   | _ => none
 
 end Mieru.Driver.Server
